@@ -119,7 +119,7 @@ for k, f in F.items():
     elif f["kind"] == "targets":
         CASES += ["%s:n%d" % (k, n) for n in (0, 1, 2, 3, 5)]
     elif f["kind"] == "compid":
-        CASES += [k + ":O", k + ":H"] + ([k + ":HO"] if f["section"] == "UH" else [])
+        CASES += [k + ":O", k + ":H"] + ([k + ":HO", k + ":R"] if f["section"] == "UH" else [])
     else:
         CASES.append(k)
 QUICK = ["UH:comp:HO", "PH:plid", "PH:eid", "PH:commit", "PH:creator", "PH:obmc", "UH:sev", "UH:flags", "UH:states", "UH:comp:H",
@@ -148,6 +148,13 @@ def h_field() -> bool:
     arg = parts[2] if len(parts) > 2 else ""
     sec, name, kind = f["section"], f["name"], f["kind"]
     creator = arg[0] if kind == "compid" else "O"
+    registry = None
+    if kind == "compid" and arg == "R":
+        # component-name registry present (fixture): names for registered ids, 4 hex digits otherwise
+        from pel.peltool import comp_id
+        creator = "O"
+        registry = {"O": {"2000": "bmc-logging", "E500": "hw-diags", "00FF": "x"}, "B": {"0100": "hb"}}
+        comp_id.componentIDs.update(registry)
     base = {"creator": ord(creator)} if sec == "PH" else {}
     kw = {}
     conds = []           # oracle conditions for the field's own key(s)
@@ -250,6 +257,12 @@ def h_field() -> bool:
         # component id display for this creator: PHYP -> ASCII pair (0x20,0x00 -> hex), others hex
         own.append("Created by")
         conds.append(numval_eq(out["Created by"], 0x2000, 16))   # template comp id 0x2000: second byte 0 -> hex form
+    elif kind == "compid" and registry is not None:
+        exp = None
+        for kx, vx in registry["O"].items():
+            if x == int(kx, 16):
+                exp = vx
+        conds.append(out[f["key"]] == exp if exp is not None else numval_eq(out[f["key"]], x, 16))
     elif kind == "compid":
         hi, lo = x // 256, x % 256
         if creator == "H":
